@@ -303,7 +303,7 @@ def corpus():
 
 
 def gen_cases(rng, tier):
-    n = {"quick": 44, "thorough": 400, "search": 60}[tier]
+    n = {"quick": 70, "thorough": 400, "search": 60}[tier]
     cases = []
     if tier != "search":
         cases += _small_scope()
@@ -522,3 +522,45 @@ def shrink(case):
             if len(r[2]) > 1:
                 ln = sum(l for op, l in r[2] if op in (M, EQ, X))
                 yield mk(reads=reads[:k] + [[r[0], r[1], [[M, max(1, ln)]], r[3], r[4]]] + reads[k + 1:])
+
+# ------------------------------------------------------------------------------------------------
+# classifiers for the two defects found (only needed if proposed_fixes/C09-W.diff / C09-X.diff are NOT applied
+# and the defects are listed as open findings instead); each one is narrow: that input shape, that failure only
+
+
+def _looks_numeric_or_na(name):
+    if name in ("", "#N/A", "#N/A N/A", "#NA", "-1.#IND", "-1.#QNAN", "-NaN", "-nan", "1.#IND", "1.#QNAN", "<NA>",
+                "N/A", "NA", "NULL", "NaN", "None", "n/a", "nan", "null"):
+        return True
+    try:
+        float(name)
+        return True
+    except ValueError:
+        return False
+
+
+def classify_pileup_names_parsed_as_numbers(case, impl, resp):
+    """C09-W: a name column entry that pandas.read_csv turns into a number / NaN, pileup runs only"""
+    if case.get("op") != "cov" or not isinstance(impl, list):
+        return False
+    if not any(not isinstance(l, str) and l[3] and _looks_numeric_or_na(l[3][0]) for l in case["in"]["bed"]):
+        return False
+    # coordinates and depths of every run must still agree with the model: only names differ, only in pileup runs
+    for run, m, r in zip(case["in"]["runs"], resp.get("out", []), impl):
+        if "rows" not in m or "rows" not in r or len(m["rows"]) != len(r["rows"]):
+            return False
+        for a, b in zip(m["rows"], r["rows"]):
+            if a[:3] != b[:3] or (a[3] != b[3] and (run[0] != "pileup" or not _looks_numeric_or_na(a[3]))):
+                return False
+    return True
+
+
+def classify_count_rejects_comment_lines(case, impl, resp):
+    """C09-X: the regions file has a '#' line and exactly the count runs die with ValueError('Bad line: #...')"""
+    if case.get("op") != "cov" or not isinstance(impl, list):
+        return False
+    if not any(isinstance(l, str) for l in case["in"]["bed"]):
+        return False
+    bad = [(run, r) for run, r in zip(case["in"]["runs"], impl) if "err" in r]
+    return bool(bad) and all(run[0] == "count" and r["err"] == "ValueError" and r.get("msg", "").startswith("Bad line: '#")
+                             for run, r in bad)
